@@ -13,6 +13,7 @@ import RbV.Thm.GenTbCodes
 import RbV.Thm.GenSrcPwTypes
 import RbV.Thm.GenSrcPwModes
 import RbV.Thm.GenSrcPwCustom
+import RbV.Thm.GenSrcPwKeeps
 /-!
 # C01 — pairwise alignment is optimal and its reported path achieves the reported score
 
@@ -702,6 +703,27 @@ example : srcRun scU.w (-5) (-1) minScore minScore minScore minScore [] [0] =
 -- an `i32` overflow of the text is the `overflow` of the mirror
 example : srcRun (fun _ _ => 2000000000) (-5) (-1) 0 0 0 0 [0, 0] [0, 0] = .overflow ∧
     RbV.Model.PairwiseFill.customC ⟨fun _ _ => 2000000000, -5, -1⟩ clLocal [0, 0] [0, 0] = .overflow := by decide +kernel
+
+/-- **The translated `Aligner::custom` does not write `self.scoring`** (every match function, tie-break, fuel): proved by a
+traversal of every path of every translated helper (`Thm/GenSrcPwKeeps.lean`). -/
+theorem custom_source_keeps_scoring (w : Nat → Nat → Int) (iT dT snT sn0T : Int → Int → Bool) (fuel : Nat) :
+    GenSrcPwModes.KeepsScoring (fun s x y => RbV.Gen.SrcPwCustom.custom w iT dT snT sn0T s x y fuel) :=
+  GenSrcPwKeeps.custom_keeps_scoring w iT dT snT sn0T fuel
+
+/-- **History independence of the scoring, translated wrappers over the translated `custom`** (no hypothesis left): after
+`global`, `semiglobal`, `local` — and after `custom` itself — the aligner's `scoring` is exactly what it was before the call. -/
+theorem mode_wrappers_source_history_independent (w : Nat → Nat → Int) (iT dT snT sn0T : Int → Int → Bool) (fuel : Nat)
+    (a a' : RbV.Gen.SrcPwTypes.Aligner) (x y : List Nat) (al : Alignment) :
+    (RbV.Gen.SrcPwModes.global_ (fun s x y => RbV.Gen.SrcPwCustom.custom w iT dT snT sn0T s x y fuel) a x y = .ok (al, a') →
+      a'.scoring = a.scoring) ∧
+    (RbV.Gen.SrcPwModes.semiglobal_ (fun s x y => RbV.Gen.SrcPwCustom.custom w iT dT snT sn0T s x y fuel) a x y = .ok (al, a') →
+      a'.scoring = a.scoring) ∧
+    (RbV.Gen.SrcPwModes.local_ (fun s x y => RbV.Gen.SrcPwCustom.custom w iT dT snT sn0T s x y fuel) a x y = .ok (al, a') →
+      a'.scoring = a.scoring) ∧
+    (RbV.Gen.SrcPwCustom.custom w iT dT snT sn0T a x y fuel = .ok (al, a') → a'.scoring = a.scoring) :=
+  have hk := GenSrcPwKeeps.custom_keeps_scoring w iT dT snT sn0T fuel
+  ⟨GenSrcPwModes.global_source_restores_scoring _ hk a x y al a', GenSrcPwModes.semiglobal_source_restores_scoring _ hk a x y al a',
+   GenSrcPwModes.local_source_restores_scoring _ hk a x y al a', fun h => hk a x y al a' h⟩
 
 end SourceText
 
